@@ -159,10 +159,12 @@ CHECKS = {
         parts=[
             dict(name="handshake", harness="internal__handshake", run="TestVerifC06"),
             dict(name="incoming", harness="root", run="TestVerifC06b"),
+            dict(name="outgoing", harness="root", run="TestVerifC06c"),
         ],
         technique="exhaustive enumeration of a bounded Dolev-Yao attacker against the real requester/responder code: every combination of harvest sessions x every ephemeral choice x every constructible/replayable frame in every attacker-controlled slot; plus every single-bit flip and truncation of each frame of an honest run",
         rule="attacker M (a legitimate account) first runs 0..2 harvest sessions with honest parties (passive recording; A or B requests M; M requests A or B; M's ephemeral fresh or low-order), then attacks responder B claiming another account (T1) and requester A who targets B (T2); in each attacker-controlled slot every element of its knowledge closure is tried (fresh / 12 low-order / recorded / reflected ephemerals; every recorded frame; every known plaintext sealed under every computable key; empty, 1-byte, oversize; ack true/false/missing); classes = (target, ephemeral kind, frame kind, outcome)",
-        assumptions=["the attacker cannot break X25519, Ed25519 or the box; it combines what it has seen or can compute",
+        assumptions=["part 'outgoing': the real SendContactRequest over an in-memory stream against a peer that answers the handshake with the target's key, another account's key, the requester's own key, or garbage, and keeps reading: the request is recorded as sent and the own contact card goes out only in the first case",
+                     "the attacker cannot break X25519, Ed25519 or the box; it combines what it has seen or can compute",
                      "at most two harvest sessions before the targets (quick: pairs restricted to equal ephemeral kinds); frames B emits while being attacked (T1) are available for the attack on A (T2)",
                      "part 'incoming': the real handleIncomingRequest over an in-memory pipe against a requester that authenticates honestly and then announces a catalogue of contacts (its own, another account's, malformed, none)",
                      "counted as model_checking: states = attacker knowledge states (harvest combinations), transitions = partial handshakes executed against the real code"],
